@@ -33,8 +33,10 @@ DE_SWEEP = [0.1, 0.2, 0.3, 0.4, 0.6, 0.8, 0.9, 1.1, 1.3, 1.9]  # rounding-sensit
 
 def shards(tier, seed):
     tasks = A.make_shards(tier, "opt", extra={"full": tier == "thorough", "dup_every": 7})
+    FAR = [[0, 1], [5, 6], [0, 6], [2, 3]]  # units far apart: the optimum leaves some of them alone
     sweep = [dict(n=4, k=1, T=2, labels=["x"], sym=True), dict(n=5, k=1, T=2, labels=["x"], sym=True),
-             dict(n=3, k=2, T=2, labels=["x"], sym=True)]
+             dict(n=3, k=2, T=2, labels=["x"], sym=True),
+             dict(n=4, k=1, T=6, labels=["x"], segs=FAR, sym=True), dict(n=5, k=1, T=6, labels=["x"], segs=FAR, sym=True)]
     if tier == "thorough":
         sweep += [dict(n=4, k=1, T=2, labels=["x", "y"]), dict(n=6, k=1, T=1, labels=["x", "y"], sym=True)]
     for u in sweep:
